@@ -50,6 +50,10 @@ var useForms = []useForm{
 	{"ks4", "ks4", "plain"},
 	{"ks5", "ks5", "plain"},
 	{"ks6", "ks6", "plain"},
+	{"ks2;", "ks2", "trailing-semicolon"},
+	{"ks1 ;", "ks1", "trailing-blank-semicolon"},
+	{`"KsMixed";`, "KsMixed", "quoted-mixed-trailing-semicolon"},
+	{"nosuch;", "", "missing-trailing-semicolon"},
 }
 
 type c07Op struct {
@@ -185,12 +189,12 @@ func c07History(c *Ctx, idx int, hosts, conns, nClients, steps int, restarts boo
 				switch op.Kind {
 				case "use":
 					sent := false
-					if lr.Intn(4) == 0 && !cl.Version.SupportsResultMetadataId() {
+					if lr.Intn(4) == 0 {
 						// the same USE as a prepared statement: PREPARE "USE x", then EXECUTE of the returned id
 						if pf, perr := cl.Call(stream+20000, &message.Prepare{Query: "USE " + op.Use.Text}, 20*time.Second); perr == nil && pf != nil {
 							if fr, derr := rawcql.DecodeWith(cl.Comp, pf); derr == nil {
 								if pr, ok := fr.Body.Message.(*message.PreparedResult); ok {
-									err = cl.Send(stream, &message.Execute{QueryId: pr.PreparedQueryId, Options: &message.QueryOptions{Consistency: primitive.ConsistencyLevelOne}})
+									err = cl.Send(stream, &message.Execute{QueryId: pr.PreparedQueryId, ResultMetadataId: pr.ResultMetadataId, Options: &message.QueryOptions{Consistency: primitive.ConsistencyLevelOne}})
 									sent = true
 									atomic.AddInt64(&preparedUses, 1)
 								}
